@@ -48,7 +48,9 @@ def front(cfg=None, color=False, wall=False):
 
 def gen_dump(rng):
     tids = [11, 12, 13][:rng.choice((2, 3))]
-    undeclared = 99
+    if rng.random() < 0.4:      # unusually wide values: a 64-bit thread id, a ten-digit pid, a name that fills its field
+        tids = tids[:-1] + [rng.choice((0xfedcba9876543210, (1 << 64) - 1, 123456789012))]
+    undeclared = rng.choice((99, 99, 0xffffffffffffff00))
     programs = []
     for k, tid in enumerate(tids + [undeclared]):
         keyspace = {'tid': tid, 'pid': 100 * (k + 1), 'sid': 1000 * (k + 1)}
@@ -80,7 +82,9 @@ def gen_dump(rng):
     order = H.random_interleaving(rng, programs)
     all_tids = tids + [undeclared]
     events = H.materialize([(all_tids[t], programs[t][i]) for t, i in order], t0=0x100000001)
-    entries = [(tid, 100 * (i + 1), rng.choice((b'launchd', b'Safari', b'caf\xc3\xa9', b'p')), b'') for i, tid in enumerate(tids)]
+    entries = [(tid, 100 * (i + 1) if rng.random() < 0.8 else 4294967295 - i,
+                rng.choice((b'launchd', b'Safari', b'caf\xc3\xa9', b'p', b'a-name-of-19-bytes!', b'\xe6\x97\xa5' * 6)), b'')
+               for i, tid in enumerate(tids)]
     if rng.random() < 0.3:
         entries.append((tids[0], 300, b'later-entry', b''))      # duplicate tid: the later entry wins
     data = wire.v2_file(entries, 8, gen.events_to_records(events))
